@@ -3,7 +3,7 @@ import itertools
 import common, driver, impl, gen_tables
 from sexpr import hexs, enc
 
-PROP_MODS = ["ODataVerif.Tie.OdataFunctions", "ODataVerif.Props.C11"]
+PROP_MODS = ["ODataVerif.Tie.OdataFunctions", "ODataVerif.Props.C11", "ODataVerif.Props.C05Roundtrip"]
 
 ARGS = ["1", "'s'", "a", "a/b", "null", "(1, 2)", "x add 1", "tolower(n)", "true", "2020-01-01", "not b", "-3"]
 NAMED_VALS = ["1", "'v'", "a", "x add 1", "f.h(k=2)"]
